@@ -193,7 +193,7 @@ func diff(v0, v1 any, one bool, ignores ...Path) (diffs []Path) {
 				}
 			}
 		}
-		if len(t0) != len(t1) && !ignoreIndex(len(t0), ignores) {
+		if len(t0) < len(t1) && !ignoreIndex(len(t0), ignores) {
 			diffs = append(diffs, Path{len(t0)})
 		}
 	case map[string]any:
